@@ -117,13 +117,15 @@ GenericForms == {"inline", "defs", "definitions", "chain", "file", "filedef", "s
 \* a document that is the target of a file reference needs a typed root ("schema has no root" otherwise; the
 \* tool turns an untyped root into an object): the untyped enum cannot be the root of a file
 RootForms == {"file", "dotslash", "subdir", "updir", "yaml", "noext", "filechain", "filechainnt", "dotdot", "samefile"}
-FormsOf(c, k) == IF k \in AltOnly /\ c \notin {"two", "twoall", "collide"} THEN {} ELSE
+\* (leaf "date" is left out of "crossbranch": finding F-C10-cross-branch-local-ref, recorded with its witness, not yet modelled)
+FormsOf0(c, k) == IF k \in AltOnly /\ c \notin {"two", "twoall", "collide"} THEN {} ELSE
                  (CASE c = "nested" -> GenericForms \cup {"filechain", "filechainnt"}
                     [] c = "req2"   -> GenericForms \cup {"dotdot"}
                     [] c = "two"    -> {"inline", "samefile", "samedef", "samedefinline"}
-                    [] c = "twoall" -> {"inline", "samebranch"}
+                    [] c = "twoall" -> {"inline", "samebranch", "crossbranch"}
                     [] c = "collide" -> {"inline", "namecollide", "leafcollide"}
                     [] OTHER        -> GenericForms) \ (IF k = "enumu" THEN RootForms ELSE {})
+FormsOf(c, k) == FormsOf0(c, k) \ (IF k = "date" THEN {"crossbranch"} ELSE {})
 
 (* ---------- references ---------- *)
 RDefs(n)            == [ref |-> [k |-> "defs", n |-> n]]
@@ -171,6 +173,7 @@ MkUnit(c, k, f, rootpath, schema, defs, ldefs, files, exts, roottype) ==
    \* declare same-named definitions while the specification keeps them apart
    strip |-> CASE f \in {"samedef", "samedefinline"} -> <<"N1", "N2", "M1", "M2">>
                [] f = "samebranch" -> <<"Base1", "Base2">>
+               [] f = "crossbranch" -> <<"Tag1", "Tag2">>
                [] OTHER -> <<>>,
    docs |-> DocsOf(c, LeafTable[k], LeafTable[AltOf(k)])]
 
@@ -195,6 +198,11 @@ Unit(c, k, f) ==
     [] f = "samebranch"  -> plain(RootOf(c, RPath(<<"d1.json">>, "Wa", "Wa"), RPath(<<"d2.json">>, "Wb", "Wb")), <<>>, <<>>,
                                   <<File(<<"d1.json">>, "F1", Obj(<<>>), <<[k |-> "Base1", s |-> Obj(<<[k |-> "c", s |-> lf]>>)], [k |-> "Wa", s |-> AllOfC(RDefs("Base1"))]>>, FALSE),
                                     File(<<"d2.json">>, "F2", Obj(<<>>), <<[k |-> "Base2", s |-> Obj(<<[k |-> "c", s |-> alt]>>)], [k |-> "Wb", s |-> AllOfC(RDefs("Base2"))]>>, FALSE)>>)
+    \* an allOf branch taken from ANOTHER document whose definition Base refers to a definition Tag local to that
+    \* document, while the referring document declares a different Tag of its own (and uses it in its second list)
+    [] f = "crossbranch" -> plain(RootOf(c, AllOfC(RPath(<<"lib", "base.json">>, "Base", "Base")), AllOfC(Obj(<<[k |-> "c", s |-> RDefs("Tag2")]>>))),
+                                  <<[k |-> "Tag2", s |-> alt]>>, <<>>,
+                                  <<File(<<"lib", "base.json">>, "F1", Obj(<<>>), <<[k |-> "Base", s |-> Obj(<<[k |-> "c", s |-> RDefs("Tag1")]>>)], [k |-> "Tag1", s |-> lf]>>, FALSE)>>)
     [] f = "defs"        -> plain(one(RDefs("N")), <<[k |-> "N", s |-> lf]>>, <<>>, <<>>)
     [] f = "definitions" -> plain(one(RDefinitions("N")), <<>>, <<[k |-> "N", s |-> lf]>>, <<>>)
     [] f = "chain"       -> plain(one(RDefs("M")), <<[k |-> "M", s |-> RDefs("N")], [k |-> "N", s |-> lf]>>, <<>>, <<>>)
